@@ -1086,8 +1086,8 @@ func (c *aspcontext) RequiredGas(input []byte) uint64 {
 }
 
 func (c *aspcontext) Run(ctx context.Context, input []byte) ([]byte, error) {
-	if input == nil || len(input) < 20 {
-		return nil, nil
+	if len(input) < 20 {
+		return nil, errors.New("invalid input data length")
 	}
 	address := common.BytesToAddress(input[:20])
 	key := string(input[20:])
@@ -1108,8 +1108,8 @@ func (u *userOpSender) RequiredGas(input []byte) uint64 {
 }
 
 func (u *userOpSender) Run(ctx context.Context, input []byte) ([]byte, error) {
-	if len(input) == 0 {
-		return nil, nil
+	if len(input) != common.HashLength {
+		return nil, errors.New("invalid input data length")
 	}
 
 	var userOpHash common.Hash
@@ -1137,10 +1137,6 @@ func (c *contextWriter) RequiredGas(input []byte) uint64 {
 }
 
 func (c *contextWriter) Run(ctx context.Context, input []byte) ([]byte, error) {
-	if input == nil || len(input) < 128 {
-		return nil, nil
-	}
-
 	// only a CALL carries the execution context that says on whose behalf the write is made
 	if c.ctx == nil {
 		return nil, errors.New("aspect context write without execution context")
